@@ -10,8 +10,8 @@ TECH = "contract-based deductive verification: WP/symbolic execution over go/ssa
 
 # id -> (claimed?, level text, level note, design ref)
 CLAIMS = {
-    "C02": ("Proof, for all proofs/digests/snapshots, that the real balloon.MembershipProof.DigestVerify (and client.MembershipVerify) only accept when Exists and ActualVersion <= QueryVersion and both sub-proofs are present (postconditions taken from the property statement); that protocol.ToBalloonProof wires the history proof to (ActualVersion, QueryVersion) and the hyper proof to the key digest; plus panic-freedom and termination of the history/hyper verifier functions it calls. The cryptographic binding of the digest inside the history/hyper recomputation is NOT yet proved (needs the inductive tree contracts, DESIGN.md appendix A).",
-            "Assumes: hash collision resistance; authentic snapshots; hasher factory pure and non-nil; interpretation of the hyper operation stack (closures stored in the stack) assumed panic-free; engine qedvc, go/ssa, SMT solvers.",
+    "C02": ("Proof, for all proofs/digests/snapshots, that the real balloon.MembershipProof.DigestVerify (and client.MembershipVerify) only accept when Exists and ActualVersion <= QueryVersion and both sub-proofs are present (postconditions taken from the property statement); that protocol.ToBalloonProof wires the history proof to (ActualVersion, QueryVersion) and the hyper proof to the key digest; plus panic-freedom and termination of the history/hyper verifier functions it calls. HISTORY HALF OF THE BINDING, proved by induction on the tree height over the real pruneToVerify / computeHashVisitor / operation.Accept code: whatever the audit path holds, if history.MembershipProof.Verify accepts against the true root hash Hist(0, len64(V), V) of version V and Index <= V, then the event digest is ev(Index) (spec functions Hist/evalC in /verif/contracts/spec/history.spec, unfolded once per occurrence; byte-string theory instantiated on the ground terms). The hyper half (key -> version) is NOT proved.",
+            "Assumes: hash collision resistance (H injective, used as an axiom) and one hash function H for all hashers; position.Bytes = be64(index)||be16(height) (assumed, not yet proved against newPosition); what a cache answers is a function of the cache and the key while a proof is verified; dynamic dispatch of Accept/Visit* (each interface clause is the proved clause of the implementer); authentic snapshots; hasher factory pure and non-nil; interpretation of the hyper operation stack (closures stored in the stack) assumed panic-free; engine qedvc, go/ssa, SMT solvers.",
             "DESIGN.md section 4, C02"),
     "C12": ("Proof of panic-freedom (every index, slice, nil dereference, type assertion, explicit panic, division, make) and of termination of the recursive pruning closures, for ALL inputs, of the client-side decode-and-verify path: protocol.To*Proof, history.ParseAuditPath, history/hyper proof Verify with their pruning functions and visitors, balloon DigestVerify / IncrementalProof.Verify, client.Membership*/Incremental*/GetSnapshot/*Verify/*AutoVerify, and the auditor/monitor/publisher task closures on arbitrary gossiped batches. Seven genuine defects were found this way, replayed on the real code and fixed (known_findings.txt).",
             "Assumes: JSON decoding yields an arbitrary well-typed value or an error; the hyper stack interpreter closures (calls through operation.Interpret) are assumed panic-free and the stack never holds nil (stated `assumes` clause); memory exhaustion by oversized answers is not modelled; deployment preconditions (agent built with its services, hasher factory pure/non-nil).",
@@ -19,34 +19,34 @@ CLAIMS = {
     "C13": ("Proof, for all inputs, that the Go-side wire translations preserve every field: ToBalloonProof/ToMembershipResult/ToIncrementalProof/ToIncrementalResponse field-by-field postconditions, history proof rebuilt with Index=ActualVersion and Version=QueryVersion, hyper value rebuilt with the hasher's length; big-endian helpers of util proved against be64/be16; AddPaddingToBytes total with its exact length contract.",
             "Assumes: encoding/json and msgpack codecs round-trip (decode(encode(x)) = x) - not verified; audit-path key string round trip (Sprintf/Split/Atoi) not verified; equal verification verdict of decoded and original proof follows only under those assumptions.",
             "DESIGN.md section 4, C13"),
-    "C19": ("Proof, for all batches and all behaviours of the abstract services, that the auditor and monitor task closures raise an alert iff the verification they reached returned false (ghost counters alerts / verifyCalls / lastVerify defined by the contracts of Notifier.Alert and client.*Verify), perform at most one verification, and that the publisher task calls PutBatch at most once; plus panic-freedom of the three factories and tasks on arbitrary gossiped batches.",
+    "C19": ("Proof, for all batches and all behaviours of the abstract services, that the auditor and monitor task closures raise an alert iff the verification they reached returned false (ghost counters alerts / verifyCalls / lastVerify defined by the contracts of Notifier.Alert and client.*Verify), perform at most one verification, report success only after a verification took place (no batch is waved through), and that the publisher task calls PutBatch at most once; plus panic-freedom of the three factories and tasks on arbitrary gossiped batches.",
             "Assumes: contracts of the services (Notifier, SnapshotStore, Cache, QED client) as ghost bookkeeping; 'no alert on an honest log' additionally needs completeness of the proofs (C01/C03), not proved here; publisher 'never forwards the same snapshot twice' relies on the cache contract (not modelled beyond at-most-one PutBatch per task).",
             "DESIGN.md section 4, C19"),
-    "C05": ("Proof, for every call and therefore for every sequential history, of the version arithmetic on the real code: Balloon.Add gives the event the current version and advances it by one; Balloon.AddBulk advances it by len(bulk), returns one snapshot per event and (quantified loop invariant) the k-th snapshot carries version old+k and the k-th event digest; fsmState.shouldApply never accepts an index at or below the last applied one and only accepts a strictly larger balloon version; RaftNode.applyAdd advances the balloon by len(hashes); RefreshVersion, Version. One genuine defect (empty bulk) found, replayed and fixed.",
+    "C05": ("Proof, for every call and therefore for every sequential history, of the version arithmetic on the real code: Balloon.Add gives the event the current version and advances it by one; Balloon.AddBulk advances it by len(bulk), returns one snapshot per event and (quantified loop invariant) the k-th snapshot carries version old+k and the k-th event digest; fsmState.shouldApply never accepts an index at or below the last applied one and only accepts a strictly larger balloon version; RaftNode.applyAdd advances the balloon by len(hashes); Balloon.RefreshVersion sets the counter to (last stored history version)+1 whatever it was before, and leaves it alone on an empty store; Version. One genuine defect (empty bulk) found, replayed and fixed.",
             "Assumes: the history/hyper tree insertion contracts (unverified tree internals: results have one digest per event); raft delivers committed entries once, in index order; Store.Mutate atomic; the history table holds 10-byte position keys; restarts/leader changes are consequences of these assumptions, not separately decided.",
             "DESIGN.md section 4, C05"),
     "C07": ("Narrow claim, proved: one Apply of a fresh entry performs EXACTLY ONE store write (ghost counter on Store.Mutate) whose mutation list ends with the FSM-state mutation (trees and state in the same batch), n.state is advanced only after it, an already applied entry (index <= last applied) writes nothing, and at most one write happens per Apply.",
             "Not decided: what happens between those steps at an arbitrary instant (RocksDB write-batch atomicity, raft log replay) - assumed. Store.Mutate's ghost bookkeeping defines what 'a write' is.",
             "DESIGN.md section 4, C07"),
-    "C11": ("Proof of panic-freedom for ALL request contents of the public and management HTTP handlers (Add, AddBulk, Membership, DigestMembership, Incremental, Info*, HealthCheck, sanitizers, backup handlers), of RaftNode.Add/AddBulk/Query*, Balloon.Query*, HyperTree.QueryMembership's input guard and of the FSM Apply/applyAdd path under the proposer's guarantees; an empty bulk is never proposed (ghost counter on propose) and an already committed empty command is answered with an error. Three genuine defects found, replayed and fixed (empty bulk, missing backupID, 33-byte digest).",
+    "C11": ("Proof of panic-freedom for ALL request contents of the public and management HTTP handlers (Add, AddBulk, Membership, DigestMembership, Incremental, Info*, HealthCheck, sanitizers, backup handlers), of RaftNode.Add/AddBulk/Query*, Balloon.Query*, HyperTree.QueryMembership's input guard and of the FSM Apply/applyAdd path under the proposer's guarantees; an empty bulk is never proposed (ghost counter on propose) and an already committed empty command is answered with an error; Balloon.QueryConsistency answers every range outside 0 <= start <= end < version with an error (the history visitor would panic on the missing node). Three genuine defects found, replayed and fixed (empty bulk, missing backupID, 33-byte digest).",
             "Assumes: net/http hands handlers non-nil writer/request/URL and recovers nothing for us; JSON decoding yields arbitrary well-typed values; the ClientApi behind the handlers is a RaftNode as contracted; hyper-tree search/insert internals unverified beyond their stated preconditions; the 'tampered store' explicit panics and log.Fatalf exits are by design; memory exhaustion by oversized bodies not modelled.",
             "DESIGN.md section 4, C11"),
-    "C18": ("Proved per call: Agent.Send forwards nothing and leaves the message untouched when its TTL is not positive, and lowers the TTL by exactly one otherwise (ghost counter on the transport); every access to Topology.m in Update/Delete/Get/Each happens with the topology mutex held (lock-discipline obligations from a `guarded` declaration). Two genuine defects found, replayed (one with the race detector) and fixed.",
+    "C18": ("Proved per call: Agent.Send forwards nothing and leaves the message untouched when its TTL is not positive, and lowers the TTL by exactly one otherwise (ghost counter on the transport); every access to Topology.m in Update/Delete/Get/Each happens with the topology mutex held (lock-discipline obligations from a `guarded` declaration); PeerList.Filter/Exclude build a NEW list and write nothing of the receiver (frame + freshness, callback iteration with a syntactically read-only closure), Topology.Each only touches the list it builds. Two genuine defects found, replayed (one with the race detector) and fixed.",
             "Not decided: 'never routes to itself' (needs functional contracts for PeerList.Filter/Exclude with closures: Agent.route's contract is UNVERIFIED), 'tasks run at most once per batch' (cache eviction), interleavings of joins/leaves/sends. Lock discipline is a necessary condition for race freedom, not a proof of it.",
             "DESIGN.md section 4, C18"),
-    "C20": ("Proof, for all topologies and preferences, with loop invariants (quantified round-robin bookkeeping) on the real topology.NextReadEndpoint: a returned endpoint is never dead and is permitted by the read preference; 'no endpoint' is answered only when no live permitted endpoint existed (completeness, all five preferences); a returned secondary is the FIRST live one after the old cursor in cyclic order and the cursor moves onto it; all loops terminate (decreasing measures). callPrimary sends at most one request and only to the endpoint the topology names as primary, and its retry loop terminates; BackoffRequestRetrier.DoReq terminates within maxRetries+1 attempts.",
+    "C20": ("Proof, for all topologies and preferences, with loop invariants (quantified round-robin bookkeeping) on the real topology.NextReadEndpoint: a returned endpoint is never dead and is permitted by the read preference; 'no endpoint' is answered only when no live permitted endpoint existed (completeness, all five preferences); a returned secondary is the FIRST live one after the old cursor in cyclic order and the cursor moves onto it; all loops terminate (decreasing measures). topology.Update installs the announced leader as a NEW endpoint of type primary, alive, and keeps the no-nil-entries invariant (nested loop invariants). callPrimary sends at most one request and only to the endpoint the topology names as primary, and its retry loop terminates; BackoffRequestRetrier.DoReq terminates within maxRetries+1 attempts.",
             "Not decided: callAny's termination (needs a cardinality measure over live endpoints); convergence on a new leader after discovery/redirect (liveness across requests).",
             "DESIGN.md section 4, C20"),
-    "C09": ("Narrow claim, proved on the real code: (leader side) the state-transfer filter built in RaftNode.FetchSnapshot refuses with an error every batch whose previous version lies beyond the follower's position (a gap), ships exactly the batches that continue the sequence and moves its position to where they end, never skips a continuation and never moves on a refusal; (follower side) RaftNode.Restore performs at most one transfer and, after it, re-derives everything it keeps in memory from the store: fsm state, balloon version and the hyper-tree cache (ghost bookkeeping: each of the three was last derived after the last LoadSnapshot). One genuine defect found (the hyper cache was never rebuilt after a transfer: a restored follower computed different hyper digests), demonstrated on the real balloon and fixed.",
+    "C09": ("Narrow claim, proved on the real code: (leader side) the state-transfer filter built in RaftNode.FetchSnapshot refuses with an error every batch whose previous version lies beyond the follower's position (a gap), ships exactly the batches that continue the sequence and moves its position to where they end, never skips a continuation and never moves on a refusal; (follower side) RaftNode.Restore performs at most one transfer and, after it, re-derives everything it keeps in memory from the store: fsm state, balloon version and the hyper-tree cache (ghost bookkeeping: each of the three was last derived after the last LoadSnapshot); the loading phase of HyperTree.RebuildCache reads the tile table TO ITS END, puts EVERY tile it reads into the cache (loop invariants over ghost counters of the reader and the cache) and releases the reader. Two genuine defects found: the reader was never closed (fixed), and, first, one genuine defect found (the hyper cache was never rebuilt after a transfer: a restored follower computed different hyper digests), demonstrated on the real balloon and fixed.",
             "Not decided: that the replayed batches reproduce the leader's store (RocksDB WAL iteration and write-batch replay are outside the verifier's reach: rocksdb is cgo and does not build in the sandbox), equality of proofs/digests of the restored node with the leader's (needs the tree contracts), schedules/fault sequences. Assumes: decodeMsgPack decodes what encode wrote (probes), loadState/RefreshVersion/RebuildCache bookkeeping clauses (`assumes`), attemptToFetchSnapshot leaves n.state alone.",
             "DESIGN.md section 4, C09"),
-    "C14": ("Proved per call on the real code. In-memory back end: keys of table t are stored under the one-byte prefix of t; Get/GetLast/GetRange/GetAll only return entries of the table asked for (callback-iteration invariants over the B-tree scan; two genuine leaks between tables found, replayed and fixed: GetLast and the reader behind GetAll/GetRange). Durable back end, relative to the assumed contract of the RocksDB wrapper: Mutate puts ALL mutations of a call, and the metadata, into ONE write batch handed over with ONE Write; Get reads the key in the column family of the table asked for.",
+    "C14": ("Proved per call on the real code. In-memory back end: keys of table t are stored under the one-byte prefix of t; Get/GetLast/GetRange/GetAll only return entries of the table asked for (callback-iteration invariants over the B-tree scan; two genuine leaks between tables found, replayed and fixed: GetLast and the reader behind GetAll/GetRange); GetLast's descent callback goes on while it is above the table and stops at or below it (necessary for 'the greatest key of that table'). Durable back end, relative to the assumed contract of the RocksDB wrapper: Mutate puts ALL mutations of a call, and the metadata, into ONE write batch handed over with ONE Write; Get reads the key in the column family of the table asked for.",
             "Not decided: the sorted-map semantics of google/btree and of RocksDB themselves (assumed contracts in /verif/contracts/trusted), atomic visibility, durability across close/reopen (C engine), functional contracts of bplus GetRange bounds and Mutate. Nothing in storage/rocks can be replayed in the sandbox (cgo does not build).",
             "DESIGN.md section 4, C14"),
-    "C15": ("Proved per call on the real code, relative to the assumed contract of the RocksDB wrapper: raftLog.StoreLog writes the entry under the 8-byte big-endian bytes of ITS index in the log table with one write; StoreLogs puts all entries in one batch / one write; GetLog looks up the big-endian bytes of the index asked for; DeleteRange removes the INCLUSIVE range [min,max] (half-open engine range, hence max+1, no overflow by precondition); FirstIndex/LastIndex seek to first/last and decode 8-byte keys without panicking; Set/Get/SetUint64/GetUint64 use the stable table under the caller's key, big-endian values.",
+    "C15": ("Proved per call on the real code, relative to the assumed contract of the RocksDB wrapper: raftLog.StoreLog writes the entry under the 8-byte big-endian bytes of ITS index in the log table with one write; StoreLogs puts all entries in one batch / one write; GetLog looks up the big-endian bytes of the index asked for; DeleteRange removes the INCLUSIVE range [min,max] (half-open engine range, hence max+1, no overflow by precondition); FirstIndex/LastIndex seek to first/last and decode 8-byte keys without panicking; Set/Get/SetUint64/GetUint64 use the stable table under the caller's key, big-endian values; decodeRaftLog hands back, field by field (Index, Term, Type, Data, Extensions), what the stored bytes decode to.",
             "Assumes: the wrapper contract (what PutCF/DeleteRangeCF/iterators do), msgpack encode/decode of raft.Log round-trips, the log table only holds 8-byte keys (stated as a precondition), persistence across close/reopen is RocksDB's. Failures cannot be replayed (cgo).",
             "DESIGN.md section 4, C15"),
-    "C16": ("Narrow claim, proved per call on the real Go side of backups, relative to the assumed contract of the RocksDB backup engine: RocksDBStore.Backup asks for exactly one engine backup carrying the caller's metadata unchanged; DeleteBackup deletes exactly the named id; RestoreFromBackup passes the named id and the two directories in the right order; GetBackupsInfo lists EVERY backup the engine reports, field by field (quantified loop invariant); RaftNode.CreateBackup/DeleteBackup forward exactly one such request (for the named id); the management handlers are panic-free for all requests (a missing backupID is answered with 400: genuine defect found, replayed with httptest, fixed).",
+    "C16": ("Narrow claim, proved per call on the real Go side of backups, relative to the assumed contract of the RocksDB backup engine: RocksDBStore.Backup asks for exactly one engine backup carrying the caller's metadata unchanged; DeleteBackup deletes exactly the named id; RestoreFromBackup passes the named id and the two directories in the right order; GetBackupsInfo lists EVERY backup the engine reports, field by field (quantified loop invariant); RaftNode.CreateBackup/DeleteBackup forward exactly one such request (for the named id); the management handlers are panic-free for all requests (a missing backupID is answered with 400: genuine defect found, replayed with httptest, fixed), and the DELETE handler asks for at most one deletion, of exactly the number in the query string (an id beyond 32 bits is refused, never truncated to another backup's id).",
             "Not decided: that the restored database equals the log as of the backup's version and what the restored node proves/assigns afterwards (RocksDB backup engine, cgo; and tree contracts). Assumes the backup-engine contract in /verif/contracts/trusted.",
             "DESIGN.md section 4, C16"),
     "C17": ("Narrow claim, proved for ONE batcher run sequentially on the real code: Sender.doSign signs a snapshot exactly once (ghost counter on Signer.Sign) and returns it with its own signature; the batch never grows beyond the configured BatchSize (loop invariant of Sender.batcher); whatever the batcher publishes is a batch message carrying the configured TTL.",
